@@ -420,7 +420,11 @@ func Main(args []string) int {
 			mine = append(mine, h)
 		}
 	}
-	for i := 0; i < 20; i++ {
+	nlong := 20
+	if thorough {
+		nlong = 300
+	}
+	for i := 0; i < nlong; i++ {
 		h := []string{}
 		for k := 0; k < 12; k++ {
 			h = append(h, shapes[rnd.Intn(len(shapes))])
